@@ -439,7 +439,7 @@ class GuardEval:
         raise Undecided('guard comparison operator')
 
 
-def paren_mode(ctx: RuleCtx, mod: Module, cls: str, paren_cls: str, inner_attr: str) -> bool:
+def paren_mode(ctx: RuleCtx, mod: Module, cls: str, paren_cls: str, inner_attr: str) -> T.Any:
     """True when the printer writes '(' inner ')' for a ParenthesizedNode on every path, False when it prints the
     inner expression bare on every path."""
     r = ctx.repo.find_method(mod, mod.cls(cls), f'visit_{paren_cls}')
@@ -450,7 +450,7 @@ def paren_mode(ctx: RuleCtx, mod: Module, cls: str, paren_cls: str, inner_attr: 
     if _opaque_with(fn) is not None:
         raise Undecided(f'{c2.name}.visit_{paren_cls}: uses a context manager that is not read: {short(_opaque_with(fn).items[0].context_expr)}')
     params = [a.arg for a in fn.args.args]
-    modes: T.Set[bool] = set()
+    rows: T.List[T.Tuple[T.List[T.Tuple[ast.AST, bool]], bool]] = []
     for p in enumerate_paths(fn.body):
         calls = p.calls()
         idx = [i for i, c in enumerate(calls) if isinstance(c.func, ast.Attribute) and c.func.attr == 'accept'
@@ -462,10 +462,29 @@ def paren_mode(ctx: RuleCtx, mod: Module, cls: str, paren_cls: str, inner_attr: 
         if op != cl:
             ctx.violation(m2, f'{c2.name}.visit_{paren_cls}', fn, f'unbalanced parenthesis on the path [{p.describe()}]')
             raise Undecided('unbalanced ParenthesizedNode visitor')
-        modes.add(op)
-    if len(modes) != 1:
-        raise Undecided(f'visit_{paren_cls} writes the parentheses on some paths only')
-    return modes.pop()
+        rows.append(([(ev.node, bool(ev.val)) for ev in p.events if ev.kind == 'cond' and ev.node is not None], op))
+    modes = {op for _, op in rows}
+    if len(modes) == 1:
+        return modes.pop()
+    return ParenRows(fn, rows, inner_attr)
+
+
+class ParenRows:
+    """visit_ParenthesizedNode as a decision table: per path the branch atoms (read with the guard evaluator over the level of the inner
+    expression) and whether the parentheses are written."""
+
+    def __init__(self, fn: ast.FunctionDef, rows: T.List[T.Tuple[T.List[T.Tuple[ast.AST, bool]], bool]], inner_attr: str):
+        self.fn, self.rows, self.inner_attr = fn, rows, inner_attr
+
+    def written(self, inner_prec: T.Any, prec_fname: str = 'precedence_level') -> bool:
+        got: T.Set[bool] = set()
+        for conds, op in self.rows:
+            ge = GuardEval(self.fn, prec_fname, None, {self.inner_attr: inner_prec}, None, None)
+            if all(bool(ge.ev(a)) == v for a, v in conds):
+                got.add(op)
+        if len(got) != 1:
+            raise Undecided(f'{self.fn.name}: {len(got)} outcomes for an inner expression of level {inner_prec!r}')
+        return got.pop()
 
 
 def synthesized(ctx: RuleCtx, lad: Ladder, rel: str) -> T.Dict[T.Tuple[Kind, str], T.List[ast.Call]]:
